@@ -49,8 +49,9 @@ func isPlainB(s *StrV) bool { return s.IsB && s.T == nil && s.Boxed == nil }
 
 // fmtArg converts a Sprintf operand to either structured bytes, or an opaque term.
 type fmtPiece struct {
-	b *StrV // structured
-	t *Term // opaque/numeric term
+	b  *StrV // structured
+	t  *Term // opaque/numeric term
+	sg bool  // numeric term is signed
 }
 
 func (it *Interp) stringerOf(v Val) (Val, bool) {
@@ -167,14 +168,10 @@ func (it *Interp) sprintf(format string, args []Val) *StrV {
 				if iv, ok := arg.(IfaceV); ok && iv.T != nil {
 					sg = isSigned(iv.T)
 				}
-				if x.IsConst() {
-					if sg {
-						pieces = append(pieces, fmtPiece{b: strLit(signed(x.w, x.val).String())})
-					} else {
-						pieces = append(pieces, fmtPiece{b: strLit(x.val.String())})
-					}
+				if sg {
+					pieces = append(pieces, fmtPiece{t: SignExt(64, x), sg: true})
 				} else {
-					pieces = append(pieces, fmtPiece{t: x})
+					pieces = append(pieces, fmtPiece{t: ZeroExt(64, x)})
 				}
 			} else {
 				allB = false
@@ -194,7 +191,7 @@ func (it *Interp) sprintf(format string, args []Val) *StrV {
 	// symbolic numbers: structured rendering only if everything else is structured and the config asks for exact decimals
 	hasNum := false
 	for _, pc := range pieces {
-		if pc.t != nil && pc.t.sort != SStr && pc.t.sort != SBool {
+		if pc.t != nil && pc.t.sort != SStr && pc.t.sort != SBool && !pc.t.IsConst() {
 			hasNum = true
 		}
 	}
@@ -203,6 +200,8 @@ func (it *Interp) sprintf(format string, args []Val) *StrV {
 		for _, pc := range pieces {
 			if pc.b != nil {
 				out = it.strConcat(out, pc.b)
+			} else if pc.t.IsConst() && pc.sg {
+				out = it.strConcat(out, strLit(signed(pc.t.w, pc.t.val).String()))
 			} else {
 				out = it.strConcat(out, it.decRender(pc.t))
 			}
